@@ -234,7 +234,10 @@ AddResults(k, b, s) ==
     ELSE LET s2 == rb.set
              mayRebaseErr == IF k = "v2" /\ RebaseMayFail(Strip(s), b, tip) THEN {errR} ELSE {}
          IN
-         IF ~SeqOK(utxo, s2) THEN {errR}                               \* not a valid set at the tip
+         IF ~SeqOK(utxo, s2)                                          \* not a valid set at the tip on its own
+           THEN {errR} \cup (IF Len(s2) > 0 /\ \A i \in 1..Len(s2) : s2[i].t \in PoolIds           \* (all pooled, but e.g. a child without its
+                             THEN {[r |-> "known", added |-> <<>>, restale |-> FALSE, keep |-> {}]}  \* parent: the documented contract says invalid,
+                             ELSE {})                                                              \* the property says known: both are accepted)
          ELSE IF \A i \in 1..Len(s2) : s2[i].t \in PoolIds
            THEN (IF Len(s2) = 0 THEN {[r |-> "known", added |-> <<>>, restale |-> FALSE, keep |-> {}], [r |-> "ok", added |-> <<>>, restale |-> FALSE, keep |-> {}]}
                                ELSE {[r |-> "known", added |-> <<>>, restale |-> FALSE, keep |-> {}]}) \cup mayRebaseErr
